@@ -1329,7 +1329,7 @@ Qed.
 
 Theorem safe_step o : forall w, Safe w -> step_ok w o -> Safe (step w o).
 Proof.
-  induction o as [d k v rot|d k rot|d id|d|d r|d id|d ids|d ids f|d id f|d|nd id same ow nb|nd id dirs same2 ow nb|nd|d|d| |d|a IHa b IHb]; intros w S OK.
+  induction o as [d k v rot|d k rot|d id|d|d r|d id|d ids|d ids f|d id f|d|nd id same ow nb|nd id dirs same2 ow nb|nd same3|nd|d|d| |d|a IHa b IHb]; intros w S OK.
   - apply safe_write. exact S.
   - apply safe_write. exact S.
   - apply safe_step_ckpt_call; assumption.
@@ -1342,6 +1342,7 @@ Proof.
   - apply safe_step_flush_fail. exact S.
   - apply safe_step_restore; assumption.
   - apply safe_step_restoreM; assumption.
+  - cbn [step]. apply safe_add_db; [exact S|]. cbn. discriminate.
   - apply safe_step_open. exact S.
   - cbn [step]. destruct (get_db w d) as [x|] eqn:G; [|exact S]. eapply safe_unlive; [exact S|exact G|reflexivity|cbn; discriminate].
   - cbn [step]. destruct (get_db w d) as [x|] eqn:G; [|exact S]. eapply safe_unlive; [exact S|exact G|reflexivity|cbn; discriminate].
